@@ -57,6 +57,14 @@ func (g *gen) baseConfig() {
 		if c.BackoffMaxMs < c.BackoffBaseMs {
 			c.BackoffMaxMs = c.BackoffBaseMs
 		}
+		// a back-off that stays in the millisecond range makes gRPC re-dial a dead address a
+		// thousand times per simulated second; keep such storms out (they only cost wall time)
+		if c.BackoffMaxMs < 100 {
+			c.BackoffMaxMs = 100
+		}
+		if c.BackoffBaseMs < 100 && c.BackoffMult < 1.5 {
+			c.BackoffMult = 1.6
+		}
 	}
 	c.Metadata = pick(r, "none", "general", "pernode", "both")
 	c.NetCap = pick(r, 0, 0, 0, 4096, 65536)
